@@ -454,6 +454,7 @@ impl<'a, C: SimCfg> Runner<'a, C> {
                     self.model.clear_memo();
                 }
                 SessStep::Refresh => {
+                    self.h.refresh_id.fetch_add(1, Ordering::SeqCst);
                     self.h.in_refresh.store(true, Ordering::SeqCst);
                     s.refresh::<Ex>().await;
                     self.h.in_refresh.store(false, Ordering::SeqCst);
